@@ -111,6 +111,25 @@ def rule_weight(ctx, TM):
                       fn=pf.path, file=pf.file, line=pf.line)
 
 
+def char_to_rank(F):
+    """accepted char -> Rank variant, from the interval partition of TryFrom<&char> for Rank"""
+    from sa import dtree
+    fc = F.impl_fn("std::convert::TryFrom<&char>", "card::rank::Rank", "try_from")
+    parts, pr = dtree.int_partition(fc, lambda t: t == ("deref", ("param", 1)) or t == ("param", 1), 0, 0x10FFFF)
+    out = {}
+    for ivs, path, _ in parts:
+        leaf = dtree.last_assign(fc, path, 0, pr) if path.end == "return" else None
+        if leaf and leaf[0] == "agg" and leaf[1].endswith("Result::Ok"):
+            v = leaf[2][0]
+            name = v[1].rsplit("::", 1)[-1] if v[0] == "agg" else (v[2] if v[0] == "enumc" else None)
+            for a, b in ivs:
+                if b - a > 64:
+                    raise Unrecognised("C10.distinct-cards", "an Ok arm of char -> Rank covers a large interval", fc.path, fc.line)
+                for cp in range(a, b + 1):
+                    out[chr(cp)] = name
+    return out
+
+
 def rule_distinct(ctx, TM):
     rule = "C10.distinct-cards"
     ctx.rule(rule, "SingleCardPair is built only under pair[0] != pair[1]; Suited(a,b) only under a test implying a != b")
@@ -143,7 +162,21 @@ def rule_distinct(ctx, TM):
         if st.pair_variant == "Suited":
             n += 1
             pa, pb = st.ranks[0], st.ranks[1]
-            edges = TM.rank_rel_edges(pa, pb, "Ne") + TM.slice_ne_edges(pa, pb)
+            text_edges = TM.slice_ne_edges(pa, pb)
+            if text_edges and st.regexes and st.regexes[0]:
+                # `s[a..a+1] != s[b..b+1]` implies different ranks only if the letters admitted there name ranks injectively
+                try:
+                    r_ = regexlang.parse(st.regexes[0])
+                    pre_, _rest = r_.prefix_classes()
+                    c2r = char_to_rank(TM.F)
+                    for pos_ in (pa, pb):
+                        cls_ = pre_[pos_] if pos_ < len(pre_) else frozenset()
+                        names_ = [c2r.get(ch) for ch in cls_ if ch in c2r]
+                        if len(set(names_)) != len(names_):
+                            text_edges = []
+                except (regexlang.Unsupported, Exception):
+                    text_edges = []
+            edges = TM.rank_rel_edges(pa, pb, "Ne") + text_edges
             if edges and I.guarded_by(fn, st.block, edges):
                 ctx.ok(rule, {"token": f"{st.kind}(Suited)", "guard": f"rank@{pa} != rank@{pb}", "line": st.line}, sample=True)
             else:
